@@ -77,7 +77,12 @@ def every_type_db(unknown=True, as_strings=False):
         envs.append(EnvironmentSpec(name, arguments_spec_list=mk(args), **kw))
     specials = [SpecialsSpec(ch, arguments_spec_list=mk(args))
                 for ch, args in EVERY_TYPE_SPECIALS.items()]
-    db.add_context_category('every', macros=macros, environments=envs, specials=specials)
+    # '++' lives in a later category than its prefix '+': the longest specials sequence must win
+    # whichever category declares it
+    db.add_context_category('every', macros=macros, environments=envs,
+                            specials=[sp for sp in specials if sp.specials_chars != '++'])
+    db.add_context_category('every-later',
+                            specials=[sp for sp in specials if sp.specials_chars == '++'])
     if unknown:
         db.set_unknown_macro_spec(MacroSpec(''))
         db.set_unknown_environment_spec(EnvironmentSpec(''))
